@@ -60,10 +60,13 @@ def run(run, replay=None):
                             fails.append(("proper-score", {"kind": "proper-score"},
                                           dict(c.describe(), edge=[p, n], normal=[e0, ns0], proper=[e, ns], expected_bonus=bonus)))
                             break
-                    # path level: score(proper) = score(normal) + 10 * #proper nouns, for every candidate text's best path
-                    for t, cd in tp.items():
-                        if t in tn:
-                            k = None
+                    # … and the forward pass uses exactly these scores: "every other score is identical" includes the forward
+                    # scores the search is steered by
+                    for ctx_, d_ in (("proper", pr), ("normal", nm)):
+                        bad_ = K.forward_inconsistency(d_)
+                        if bad_ is not None:
+                            fails.append(("proper-forward-score", {"kind": "proper-forward-score"}, dict(c.describe(), context=ctx_, **bad_)))
+                            break
             for ctx, want_head, same_ctx, key in (("foreign", "AFX.suffix", same_f, "foreign_vs_normal"),
                                                   ("numeral", "CNT", same_n, "numeral_vs_normal")):
                 other = store[ctx]
